@@ -357,3 +357,57 @@ Theorem shallow_stale_belief_refuted :
     forall n, exec p st (concat (repeat [Push; Settle] n)) = st.
 Proof. exact C09Proofs.shallow_stale_belief_refuted_lemma. Qed.
 Print Assumptions shallow_stale_belief_refuted.
+
+(* (8) in-order delivery converges in per-mutation mode (SyncMutations), the
+   analogue of inorder_converges. Vocabulary (Proofs/C09Muts.v):
+     C09Muts.mround_events ss = map Src ss ++ [Push; Settle]  - a push round:
+       any number of source transitions (each queues its snapshot in the
+       tracer's dataQueue, untracked-only ones included), then one push whose
+       mutations message is delivered;
+     C09Muts.mrounds_ok s0 rs - along every queued chain C10's hypotheses
+       (C10Proofs.chain_ok: equal lengths, every consecutive pair within the
+       field widths, exactly as in C10 mutation_chain) and a queue tick that
+       moved between two exports;
+     C09Muts.mlast s0 rs - the last snapshot.
+   For every configuration (schema or not, any tracked subset), deep clocks,
+   every initial snapshot and every history of rounds (empty rounds = idle push
+   runs included), no cut: after the last round the mirror is exactly the
+   source's latest snapshot on the tracked states, queue tick and machine tick
+   included, the mutation queue is empty and no diff was rejected. The codec
+   part is C10's round trip (roundtrip_deep_eq, from which mutation_chain is
+   proved) applied along the chain, starting from the Hello data. *)
+From AMV Require Proofs.C10Proofs Proofs.C09Muts.
+
+Theorem inorder_converges_mutations :
+  forall (p : pcfg) (s0 : snap) (rs : list (list snap)),
+    p_mut p = true -> shallow (p_codec p) = false ->
+    cfg_wf (p_codec p) (length (s_time s0)) = true -> tracked (p_codec p) <> [] ->
+    (p_hello_m p = true \/ s_m s0 = 0) ->
+    C09Muts.mrounds_ok s0 rs ->
+    let st := exec p (init p s0) (flat_map C09Muts.mround_events rs) in
+    let y := C09Muts.mlast s0 rs in
+    client_view st = (mirror (p_codec p) y, s_q y, s_m y) /\
+    mirror_ok (p_codec p) (s_time y) (cl_t (st_cl st)) = true /\
+    sv_queue (st_sv st) = [] /\
+    quiescent st = true /\ st_err st = false /\ cl_stuck (st_cl st) = false /\
+    st_rejpush st = false.
+Proof. exact C09Muts.inorder_converges_mutations_lemma. Qed.
+Print Assumptions inorder_converges_mutations.
+
+(* non-vacuity: no schema, tracked {S0, S2} of 3 states, MachineTick 1; round 1
+   queues TWO mutations (the second moves only the untracked S1: a diff without
+   indexes, queue tick +1) and pushes them in one message, round 2 is an idle
+   push run, round 3 one mutation *)
+Theorem inorder_converges_mutations_nonvacuous :
+  let p := C09Muts.nv_p in
+  let s0 := C09Muts.nv_s0 in
+  let rs := [[C09Muts.nv_a; C09Muts.nv_b]; []; [C09Muts.nv_c3]] in
+  p_mut p = true /\ shallow (p_codec p) = false /\
+  cfg_wf (p_codec p) (length (s_time s0)) = true /\ tracked (p_codec p) <> [] /\
+  C09Muts.mrounds_ok s0 rs /\
+  (exists u1 u2,
+     st_wire (exec p (init p s0) [Src C09Muts.nv_a; Src C09Muts.nv_b; Push]) = [WMuts [u1; u2]]
+     /\ u_idx u2 = [] /\ u_q u2 = 1) /\
+  client_view (exec p (init p s0) (flat_map C09Muts.mround_events rs)) = ([2; 3], 10, 1).
+Proof. exact C09Muts.inorder_converges_mutations_nonvacuous_lemma. Qed.
+Print Assumptions inorder_converges_mutations_nonvacuous.
